@@ -20,21 +20,23 @@ import (
 // every assignment of interpreter capability to the non-terminals x every single
 // injected failure x every stop point, real passes against a recursive model.
 
-// shape is an ordered tree: kind 'N' (non-terminal with kids), 'T' terminal, 'E' empty, 'Z' childless non-terminal
+// shape is an ordered tree: kind 'N' (non-terminal with kids), 'T' terminal, 'E' empty, 'Z' childless non-terminal,
+// 'F' a non-terminal of a type the library does not know (a user's own parsley.NonTerminalNode implementation: no
+// Walk, StaticCheck or Transform method of its own), 'L' a list of alternatives INSIDE the tree (kids = alternatives)
 type shape struct {
 	kind byte
 	kids []*shape
 }
 
 func (s *shape) String() string {
-	if s.kind != 'N' {
+	if len(s.kids) == 0 {
 		return string(s.kind)
 	}
 	parts := make([]string, len(s.kids))
 	for i, k := range s.kids {
 		parts[i] = k.String()
 	}
-	return "N(" + strings.Join(parts, " ") + ")"
+	return string(s.kind) + "(" + strings.Join(parts, " ") + ")"
 }
 
 func parseShape(s string) (*shape, string) {
@@ -42,8 +44,8 @@ func parseShape(s string) (*shape, string) {
 	if s == "" {
 		return nil, ""
 	}
-	if strings.HasPrefix(s, "N(") {
-		n := &shape{kind: 'N'}
+	if strings.HasPrefix(s, "N(") || strings.HasPrefix(s, "F(") || strings.HasPrefix(s, "L(") {
+		n := &shape{kind: s[0]}
 		s = s[2:]
 		for {
 			s = strings.TrimLeft(s, " ")
@@ -100,6 +102,65 @@ func shapesOfSize(n int) []*shape {
 	}
 	shapeCache[n] = out
 	return out
+}
+
+// relabel returns a copy of s whose first len(labels) inner nodes (pre-order) are of the given kinds
+func relabel(s *shape, labels []byte) *shape {
+	i := 0
+	var cp func(s *shape) *shape
+	cp = func(s *shape) *shape {
+		c := &shape{kind: s.kind}
+		if len(s.kids) > 0 {
+			if i < len(labels) {
+				c.kind = labels[i]
+			}
+			i++
+		}
+		for _, k := range s.kids {
+			c.kids = append(c.kids, cp(k))
+		}
+		return c
+	}
+	return cp(s)
+}
+
+func countInner(s *shape) int {
+	n := 0
+	if len(s.kids) > 0 {
+		n = 1
+	}
+	for _, k := range s.kids {
+		n += countInner(k)
+	}
+	return n
+}
+
+func hasForeign(s *shape) bool {
+	if s.kind == 'F' || s.kind == 'L' {
+		return true
+	}
+	for _, k := range s.kids {
+		if hasForeign(k) {
+			return true
+		}
+	}
+	return false
+}
+
+// foreignNT is a user-defined non-terminal: it only offers what parsley.NonTerminalNode requires.
+type foreignNT struct {
+	token     string
+	kids      []parsley.Node
+	pos, rpos parsley.Pos
+}
+
+func (f *foreignNT) Token() string            { return f.token }
+func (f *foreignNT) Schema() interface{}      { return nil }
+func (f *foreignNT) Pos() parsley.Pos         { return f.pos }
+func (f *foreignNT) ReaderPos() parsley.Pos   { return f.rpos }
+func (f *foreignNT) Children() []parsley.Node { return f.kids }
+func (f *foreignNT) Value(interface{}) (interface{}, parsley.Error) {
+	return nil, parsley.NewError(f.pos, parsley.ErrNoValue)
 }
 
 // capabilities of a non-terminal's interpreter
@@ -259,8 +320,22 @@ func buildTree(s *shape, caps []int, listAlts int) *c13Tree {
 				kids = append(kids, km.real)
 			}
 			m.real = ast.NewNonTerminalNode(m.token, kids, ip)
+		case 'F', 'L':
+			var kids []parsley.Node
+			for _, k := range s.kids {
+				km := mk(k)
+				m.kids = append(m.kids, km)
+				kids = append(kids, km.real)
+			}
+			if s.kind == 'L' {
+				m.real = ast.NodeList(kids)
+			} else {
+				m.real = &foreignNT{m.token, kids, kids[0].Pos(), kids[len(kids)-1].ReaderPos()}
+			}
 		}
-		t.rec.nodeByID[m.id] = m.real
+		if s.kind != 'L' { // a list is a slice: it has no identity to record (and no interpreter to hand it to)
+			t.rec.nodeByID[m.id] = m.real
+		}
 		return m
 	}
 	t.root = mk(s)
@@ -283,8 +358,12 @@ func (t *c13Tree) walkOrder() []int {
 	var out []int
 	var rec func(m *mnode)
 	rec = func(m *mnode) {
-		for _, k := range m.kids {
-			rec(k)
+		if m.kind == 'L' {
+			rec(m.kids[0]) // a list delegates to its first alternative, then the list itself is visited
+		} else {
+			for _, k := range m.kids {
+				rec(k)
+			}
 		}
 		out = append(out, m.id)
 	}
@@ -293,6 +372,45 @@ func (t *c13Tree) walkOrder() []int {
 		out = append(out, -1) // a list delegates to its first alternative, then the list itself is visited
 	}
 	return out
+}
+
+// idOf identifies a visited node: its id, -1 for the root alternative list, -2 for a node that is not in the tree
+func (t *c13Tree) idOf(n parsley.Node) int {
+	if l, isList := n.(ast.NodeList); isList {
+		for _, m := range t.nodes {
+			if ml, ok := m.real.(ast.NodeList); ok && m.kind == 'L' && len(ml) == len(l) && len(l) > 0 && &ml[0] == &l[0] {
+				return m.id
+			}
+		}
+		return -1
+	}
+	for _, m := range t.nodes {
+		if m.kind != 'L' && m.real == n {
+			return m.id
+		}
+	}
+	return -2
+}
+
+// plain renders the model's view of an untouched subtree the way render shows the real one
+func plain(m *mnode) string {
+	switch m.kind {
+	case 'E':
+		return "EMPTY"
+	case 'T', 'Z':
+		if m.kind == 'Z' {
+			return m.token + "()"
+		}
+		return m.token
+	}
+	p := make([]string, len(m.kids))
+	for i, k := range m.kids {
+		p[i] = plain(k)
+	}
+	if m.kind == 'L' {
+		return "LIST[" + strings.Join(p, " ") + "]"
+	}
+	return m.token + "(" + strings.Join(p, " ") + ")"
 }
 
 func (t *c13Tree) render(n parsley.Node) string {
@@ -349,16 +467,7 @@ func c13One(res *explore.Result, s *shape, caps []int, listAlts int, verbose boo
 			var ret bool
 			if pm := guard(func() {
 				ret = parsley.Walk(t.rootN, func(n parsley.Node) bool {
-					id := -1
-					if _, isList := n.(ast.NodeList); !isList {
-						id = -2
-						for _, m := range t.nodes {
-							if m.real == n {
-								id = m.id
-							}
-						}
-					}
-					visited = append(visited, id)
+					visited = append(visited, t.idOf(n))
 					return len(visited)-1 == stop
 				})
 			}); pm != "" {
@@ -564,10 +673,9 @@ func c13One(res *explore.Result, s *shape, caps []int, listAlts int, verbose boo
 					}
 					return m.token + "(" + strings.Join(p, " ") + ")"
 				}
-				if m.kind == 'E' {
-					return "EMPTY"
-				}
-				return m.token
+				// terminals, empty nodes, foreign non-terminals and lists are not transformable: returned as they are,
+				// nothing below them is called
+				return plain(m)
 			}
 			want := ""
 			if t.alts != nil {
@@ -602,7 +710,7 @@ func c13One(res *explore.Result, s *shape, caps []int, listAlts int, verbose boo
 				allInterp = false
 			}
 		}
-		if allInterp && probe.alts == nil && (probe.root.kind == 'N' || probe.root.kind == 'Z') {
+		if allInterp && !hasForeign(s) && probe.alts == nil && (probe.root.kind == 'N' || probe.root.kind == 'Z') {
 			var ids []int
 			var post func(m *mnode)
 			post = func(m *mnode) {
@@ -773,7 +881,30 @@ func c13Run(env *explore.Env) *explore.Result {
 	}
 	var idx int64
 	for n := 1; n <= c13MaxNodes(env.Tier); n++ {
-		for _, s := range shapesOfSize(n) {
+		var all []*shape
+		for _, base := range shapesOfSize(n) {
+			all = append(all, base)
+			if n >= c13MaxNodes(env.Tier) {
+				continue // mixed trees one size below the bound
+			}
+			// every labelling of the first three inner nodes with {library non-terminal, foreign non-terminal, nested list}
+			k := countInner(base)
+			if k > 3 {
+				k = 3
+			}
+			total := 1
+			for i := 0; i < k; i++ {
+				total *= 3
+			}
+			for a := 1; a < total; a++ {
+				labels := make([]byte, k)
+				for i, x := 0, a; i < k; i, x = i+1, x/3 {
+					labels[i] = "NFL"[x%3]
+				}
+				all = append(all, relabel(base, labels))
+			}
+		}
+		for _, s := range all {
 			nt := countNT(s)
 			k := nt
 			if k > 3 {
@@ -843,7 +974,7 @@ func init() {
 	explore.Register(&explore.Check{
 		ID:    "C13",
 		Level: "model_checking",
-		Rule: "every ordered tree with up to N nodes (arity <= 3; terminal, empty and childless non-terminal leaves), alone and under a root alternative list of 1 or 2 alternatives, x every assignment of interpreter capability {nil, plain, checker, transformer, both} to its first three non-terminals x, per pass, every stop point (Walk) or every single injected failure (StaticCheck, Transform, EvaluateNode); " +
+		Rule: "every ordered tree with up to N nodes (arity <= 3; terminal, empty and childless non-terminal leaves; up to N-1 nodes also with every labelling of the first three inner nodes as library non-terminal / user-defined non-terminal type / nested alternative list), alone and under a root alternative list of 1 or 2 alternatives, x every assignment of interpreter capability {nil, plain, checker, transformer, both} to its first three non-terminals x, per pass, every stop point (Walk) or every single injected failure (StaticCheck, Transform, EvaluateNode); " +
 			"the recorded call sequences, results, errors and Schema() of every node are compared with a recursive model of the documented passes; plus Select/Array/Object over all small arities; " +
 			"state = (shape, capabilities, list mode); transition = one run of one pass with one stop/failure point; non-trivial = at least two non-terminals or a root list",
 		Assume: []string{"model of the passes in mc/ix/c13.go written from the doc comments of walk.go, static_check.go, transform.go, nonterminal_node.go, node_list.go (a list delegates to its first alternative and is then visited itself; a list is not transformable)"},
